@@ -32,6 +32,9 @@ import warnings
 VERIF = os.path.dirname(os.path.dirname(os.path.abspath(__file__)))
 SRC = os.path.abspath(os.environ.get("TWV_SRC", "/repo/src"))
 NPROC = int(os.environ.get("TWV_NPROC", "16"))
+# the per-sub-check thorough budgets in the property modules are multiplied by this factor (generated cases only;
+# enumerations have their own thorough bounds)
+THOROUGH_SCALE = float(os.environ.get("TWV_THOROUGH_SCALE", "5"))
 
 
 def _setup_path():
@@ -424,7 +427,7 @@ def main(argv=None):
             budget = -(-s.quick // nsh)
         else:
             nsh = max(1, min(s.shards, NPROC))
-            budget = -(-s.thorough // nsh)
+            budget = -(-int(s.thorough * THOROUGH_SCALE) // nsh)
         for sh in range(nsh):
             jobs.append((modname, s.name, tier, seed, sh, nsh, budget))
     results = []
